@@ -191,6 +191,23 @@ func init() {
 		}
 		return fmt.Sprintf("ok %d %s %s", n, v, repr32(y))
 	})
+	// spec y entry hex digest : a spec-conformant stream produced by an independent encoder
+	reg("spec", func(e *env, a []string) string {
+		need(a, 4)
+		data, err := hex.DecodeString(a[2])
+		if err != nil {
+			panic(skipErr{"bad hex"})
+		}
+		delete(e.bm, a[0])
+		y := roaring.New()
+		n, _, derr := decodeInto(e, y, a[1], data, 0)
+		if derr != nil {
+			return "err:" + spaceless(derr.Error())
+		}
+		e.bm[a[0]] = y
+		e.bufs[a[0]] = data
+		return fmt.Sprintf("ok %s %d", d32(y), n)
+	})
 	// trunc x entry : every proper prefix of x's serialization must be rejected
 	reg("trunc", func(e *env, a []string) string {
 		need(a, 2)
